@@ -279,7 +279,8 @@ class RoleChecker:
                 return None
             return None
         if isinstance(base, OCell):
-            return {'row': Role(ROW, 1), 'column': Role(COL, 1), 'column_letter': Role(COL, 'text'), 'col_idx': Role(COL, 1)}.get(a)
+            return {'row': Role(ROW, 1), 'column': Role(COL, 1), 'column_letter': Role(COL, 'text'), 'col_idx': Role(COL, 1),
+                    'coordinate': TupleR((Role(COL, 'text'), Role(ROW, 1)))}.get(a)
         if isinstance(base, Sheet):
             return {'title': Role(SHEET, 'text'), 'max_row': Role(ROW, 1), 'max_column': Role(COL, 1)}.get(a)
         return None
@@ -476,6 +477,10 @@ class RoleChecker:
             return Iter(TupleR((None, None)))
         if name == 'zip':
             return Iter(TupleR(tuple(a.elem if isinstance(a, Iter) else self.iter_elem(a, node) for a in args)))
+        if name == 'max' and len(args) == 1 and isinstance(args[0], Iter) and isinstance(args[0].elem, Role):
+            d = kwargs.get('default')
+            if d is None or (isinstance(d, Num) and d.v == 0 and args[0].elem.base == 1):
+                return args[0].elem                      # the largest of the counts (0 when there is none)
         if name in ('max', 'min') and len(args) == 2:
             a, b = args
             if isinstance(a, Role) and isinstance(b, Role):
